@@ -239,6 +239,46 @@ def one_ir(ctx, no, tie, rng, size, want):
     prob = identity_problems(gtirb, ir1)
     if prob:
         return fail({"C09"}, {"kind": "reference-identity"}, prob)
+    # ---------------- C01 once more: the SAME IR object, edited in place
+    # after its first save (AuxData values through the references the caller
+    # holds, a symbol renamed, an interval's bytes poked), saved again
+    if ctx.prop == "C01" and rng.random() < 0.5:
+        edited = second_save_edits(gtirb, rng, ir0, aux)
+        if edited:
+            try:
+                ir2 = load(gtirb, save(ir0))
+            except (Exception, core.ImplTimeout) as e:   # noqa
+                return fail({"C01"}, {"kind": "second-save-raises",
+                                      "exception": type(e).__name__},
+                            "saving / loading the IR a second time after "
+                            "in-place edits raised %s" % type(e).__name__)
+            ctx.evaluations += 1
+            ctx.count("second-save:" + "+".join(sorted(edited)))
+            try:
+                de2 = (ir0.deep_eq(ir2), ir2.deep_eq(ir0))
+            except Exception as e:   # noqa
+                de2 = ("raised", type(e).__name__)
+            w2 = NodeWorld(gtirb, ir2)
+            w0b = NodeWorld(gtirb, ir0)
+            bad = None
+            for cont in [ir2] + list(ir2.modules):
+                for key, ad in cont.aux_data.items():
+                    t, v = aux.get((cont.uuid.bytes, key), (None, None))
+                    try:
+                        got = cc.nan_normalise(cc.canon(cc.to_tokens(
+                            w2, t, ad.data)))
+                        wantv = cc.nan_normalise(cc.canon(cc.to_tokens(
+                            w0b, t, v)))
+                    except Exception as e:   # noqa
+                        got, wantv = "raised:" + type(e).__name__, None
+                    if got != wantv:
+                        bad = key
+            if de2 != (True, True) or bad is not None:
+                return fail({"C01"}, {"kind": "second-save-stale"},
+                            "after in-place edits (%s) of an IR that had "
+                            "been saved before, save + load does not "
+                            "reproduce it (deep_eq %r, AuxData table %r)"
+                            % (", ".join(sorted(edited)), de2, bad))
     # ---------------- the model
     lines = ["wf " + " ".join(V0), "tomsg " + " ".join(V0),
              "frommsg " + " ".join(M1), "roundtrip " + " ".join(V0),
@@ -248,6 +288,38 @@ def one_ir(ctx, no, tie, rng, size, want):
     if no < 2:
         ctx.sample({"V0": " ".join(V0)[:600]})
     return True
+
+
+def second_save_edits(gtirb, rng, ir, aux):
+    """in-place edits of an IR that has been saved once; returns what was
+    edited. AuxData values are edited through the object the table was given
+    (the reference a caller holds), not through the table."""
+    edited = set()
+    for (cu, key), (t, v) in list(aux.items()):
+        if isinstance(v, list) and rng.random() < 0.7:
+            if v:
+                v.append(v[0])
+            elif t[0] == "sequence" and t[1][0] == ("uint8_t", []):
+                v.append(7)
+            else:
+                continue
+            edited.add("aux-list")
+        elif isinstance(v, dict) and v and rng.random() < 0.7:
+            v.pop(next(iter(v)))
+            edited.add("aux-dict")
+        elif isinstance(v, set) and v and rng.random() < 0.7:
+            v.pop()
+            edited.add("aux-set")
+    syms = sorted(ir.symbols, key=lambda y: y.uuid.bytes)
+    if syms and rng.random() < 0.5:
+        syms[0].name = syms[0].name + "'"
+        edited.add("symbol-name")
+    bis = sorted(ir.byte_intervals, key=lambda x: x.uuid.bytes)
+    bis = [x for x in bis if len(x.contents)]
+    if bis and rng.random() < 0.5:
+        bis[0].contents[0] ^= 0xff
+        edited.add("bytes")
+    return edited
 
 
 def writer_reader_cb(ctx, replay):
